@@ -89,6 +89,18 @@ def run(ctx):
         trs.append({"tid": i + 1, "seq": list(s), "after": hist,
                     "ev": [{"q": "kappa", "r": common.fx(outs[0][1])}, {"q": "delta", "r": common.fx(outs[1][1])},
                            {"q": "dmax", "r": common.fx(outs[2][1])}]})
+    # the three replies in another interpreter environment (assertions disabled, another hash seed), get_kappa() asked first
+    from .. import orderswap, objmodel
+    items = []
+    for n_, s in enumerate(seqs[:ctx.pick(40, 200)]):
+        for q in ("get_kappa", "get_delta", "get_deltaMax"):
+            items.append({"obj": n_, "seq": s, "q": q, "a": [], "block": n_, "drop": q == "get_deltaMax"})
+    fw, rv = orderswap.run_both(ctx, items, tag="c01env")
+    for it, a, b in zip(items, fw, rv):
+        ctx.evaluations += 1
+        if not objmodel.same_reply(a["d"], b["d"]):
+            ctx.violation("kappa-value" if it["q"] == "get_kappa" else "reply-depends-on-the-interpreter-environment",
+                          {"seq": it["seq"], "query": it["q"], "environment": "python -O, PYTHONHASHSEED=%d" % (4242 + ctx.seed)}, expected=a["d"][:200], actual=b["d"][:200])
     # the range clause on V traces: TLC labels out-of-range-but-conforming replies known:K1; anything else
     # out of range was already reported by reply_relations? no - without exact values it only reports range,
     # so drop those range reports that TLC explains as K1
